@@ -26,8 +26,9 @@ var lockMethods = map[string]bool{"Lock": true, "Unlock": true, "RLock": true, "
 var marshalNames = []string{"MarshalJSON", "Marshal", "Export", "ToJSON"}
 var exposesMethods = map[string]bool{"ToMetaSlice": true, "ToMetaMap": true, "GetByRange": true}
 
-// results that alias the receiver's storage on the unrepaired tree (D9, D10: property C06): not compared
-var aliasResults = map[string]bool{"DeleteToSlice": true, "DeleteToSliceE": true, "DeleteToBSlice": true, "DeleteToBSliceE": true, "GetByRangeE": true}
+// results whose comparison is skipped (none: D9/D10 are repaired; a result that aliases guarded storage is now a finding
+// of aliasProbe / the retained-result reads of the stress)
+var aliasResults = map[string]bool{}
 
 type meth struct {
 	name   string
